@@ -114,11 +114,14 @@ func checkC09(w *Worker) {
 			var expRaw []string
 			lineNo := 0
 			pi := 0
+			var plantedAt []int // indices in out of the planted lines
+			var lintAll []string
 			for i := range raw {
 				out = append(out, raw[i])
 				lineNo++
 				for pi < len(pl) && pl[pi].after == i {
 					lineNo++
+					plantedAt = append(plantedAt, len(out))
 					out = append(out, pl[pi].b.Text+eol)
 					expect = append(expect, pl[pi].b.message(lineNo))
 					expLine = append(expLine, lineNo)
@@ -193,6 +196,7 @@ func checkC09(w *Worker) {
 					}
 					if k > 0 {
 						lintFirst = got[0]
+						lintAll = got
 					}
 					// lint is a command that reads the file: with malformed lines it must not report success, silent or not
 					if k > 0 && !r.Failed {
@@ -210,6 +214,21 @@ func checkC09(w *Worker) {
 					r := runApp(c)
 					if r.Failed && r.Panic == "" && r.Err != lintFirst {
 						x.Violate("C09|lint|message-differs-from-commands", fmt.Sprintf("lint prints %q for the first malformed line, `csv database` on the same file fails with %q", lintFirst, r.Err), nil)
+						return
+					}
+					// ... and for every later malformed line: what a reading command fails with once the malformed lines before it
+					// are repaired (replaced, line for line, by a well-formed entry)
+					for i := 1; i < k && i < len(lintAll); i++ {
+						fixed := append([]string{}, out...)
+						for j := 0; j < i; j++ {
+							fixed[plantedAt[j]] = "  filler: 1" + eol
+						}
+						c := appCase{Args: []string{"csv", "database"}, Files: map[string]string{"food.yaml": strings.Join(fixed, "")}}
+						r := runApp(c)
+						if r.Failed && r.Panic == "" && r.Err != lintAll[i] {
+							x.Violate("C09|lint|message-differs-from-commands", fmt.Sprintf("lint prints %q for malformed line number %d of the file; with the malformed lines before it repaired `csv database` fails with %q\nfile:\n%s", lintAll[i], i+1, r.Err, full), nil)
+							return
+						}
 					}
 				}
 				return
